@@ -76,6 +76,10 @@ func (g *patGen) atom(depth int) string {
 		return g.pick([]string{"[{]", "[}]", "[,]", "[2]", "[+]", "[*]", "[?]", "[|]", "[(]", "[.]", "(?:{)", "(?:2)", "(?:,)", "{", "{2", "{2,"}) + g.pick([]string{"2}", "{2}", "1,2}", "", "+", "a", "}", "3}", "[,]3}", "[2]}"})
 	case depth >= 2:
 		return g.pick(c11Chars)
+	case (k == 15 || k == 16) && g.rng.Intn(2) == 0:
+		// a group that holds exactly one quantified atom (its own repeat follows in concat): the group is load-bearing
+		in := g.pick([]string{"a", "[0-9]", `\d`, "b", ".", "[ab]", "x"}) + g.pick([]string{"+", "*", "?", "+?", "{2}", "{1,}"})
+		return g.pick([]string{"(?:", "(?:", "("}) + in + ")"
 	case k == 15:
 		return "(" + g.alt(depth+1) + ")"
 	case k == 16:
